@@ -20,7 +20,7 @@ KINDS = ("boxcar", "gaussian", "lorentzian")
 
 
 def REQUIRED(tier):
-    return ["responses_compared", "argmax_checks", "invariance_checks", "boxcar_recoveries", "kind:boxcar", "kind:gaussian", "kind:lorentzian", "len:not_fft_good", "pulse:wraps_around_end", "kernel_direct_unsorted_bank", "long_series", "regime:uncentred_data_with_baseline", "invariance:offset_with_centring_off", "construction_after_refused_one", "regime:baseline_1e5_times_noise", "input_buffer_reused_after_construction", "bank_with_template_as_wide_as_data", "fullwidth_template_present", "held_filter_checks"]
+    return ["responses_compared", "argmax_checks", "invariance_checks", "boxcar_recoveries", "kind:boxcar", "kind:gaussian", "kind:lorentzian", "len:not_fft_good", "pulse:wraps_around_end", "kernel_direct_unsorted_bank", "long_series", "regime:uncentred_data_with_baseline", "invariance:offset_with_centring_off", "construction_after_refused_one", "regime:baseline_1e5_times_noise", "input_buffer_reused_after_construction", "bank_with_template_as_wide_as_data", "fullwidth_template_present", "held_filter_checks", "plot_then_read_checks"]
 
 
 def cases(tier, seed):
@@ -229,6 +229,24 @@ def run_case(case, ctx):
         k2 = int(np.argmax(np.abs(got2 - want2).max(axis=1)))
         ctx.violation("response-values:kernel-direct:unsorted-bank", f"convolve_templates row {k2} (template sizes {[int(t.data.size) for t in pool]}) differs from its own template's inner products by {np.abs(got2 - want2).max():.3e}", one)
         return
+    if ctx.evaluations % 4 == 3:
+        # drawing the diagnostic figure is a read-only use of the filter: responses and summary values are the same afterwards
+        import matplotlib
+
+        matplotlib.use("Agg")
+        import matplotlib.pyplot as plt
+
+        snap = (np.array(mf.convs, copy=True), float(mf.snr), int(mf.peak_bin), np.array(np.asarray(mf.zscores.data), copy=True))
+        try:
+            fig = mf.plot()
+            plt.close(fig if fig is not None else "all")
+            ctx.count("plot_then_read_checks")
+            if not (np.array_equal(np.asarray(mf.convs), snap[0]) and float(mf.snr) == snap[1] and int(mf.peak_bin) == snap[2] and np.array_equal(np.asarray(mf.zscores.data), snap[3])):
+                ctx.violation("filter-changed-by-plot", "responses / z-scores / S/N / peak bin read after MatchedFilter.plot() differ from those read before it", one)
+                return
+        except Exception as exc:  # noqa: BLE001
+            ctx.count("plot_unavailable")
+            plt.close("all")
     if len(bank) >= 2:
         ctx.nontrivial_case(one)
     if ctx.evaluations % 10 == 1:
